@@ -10,6 +10,7 @@ from ..core import AnalysisError
 from ..refs import escapes as ref
 from ..srcmodel import walk_own, const_str, FuncInfo
 from .common import assignments_to, unparse
+from . import strenc
 
 EXPLANATION = (
     'R-C06-cover: per branch of Lexer._process_token the extent stored in the '
@@ -273,86 +274,9 @@ def rule_echo(ctx, res):
 
 # ---------------------------------------------------------------- escapes --
 
-class EncoderSpec:
-    """TokString.code for quoted strings, as data."""
-
-    def __init__(self, rev, pad_digits, quote_escape, passthrough):
-        self.rev = rev
-        self.pad_digits = pad_digits
-        self.quote_escape = quote_escape
-        self.passthrough = passthrough
-
-    def encode(self, c, nxt, q):
-        b = bytes([c])
-        if b in self.rev:
-            esc = self.rev[b]
-            if self.pad_digits and esc.isdigit() and nxt is not None and \
-                    bytes([nxt]).isdigit():
-                esc = esc.rjust(3, b'0')
-            return b'\\' + esc
-        if self.quote_escape and b == q:
-            return b'\\' + b
-        if self.passthrough:
-            return b
-        raise AnalysisError('encoder has no case for byte')
-
-
-def extract_encoder(ctx):
-    model, ev = ctx.model, ctx.consts
-    f = model.func(LX + ':TokString.code')
-    rev = ev.module_const(LX, '_STRING_REVERSE_ESCAPES')
-    if rev is UNKNOWN or not isinstance(rev, dict):
-        raise AnalysisError('_STRING_REVERSE_ESCAPES does not evaluate')
-    loops = [n for n in walk_own(f.node) if isinstance(n, ast.For)]
-    if len(loops) != 1:
-        raise AnalysisError('encoder loop not found')
-    lp = loops[0]
-    src = ast.unparse(lp)
-    chain = [s for s in lp.body if isinstance(s, ast.If)]
-    if len(chain) != 1:
-        raise AnalysisError('encoder if-chain not found')
-    iff = chain[0]
-    t1 = ast.unparse(iff.test)
-    if t1.replace(' ', '') != 'cin_STRING_REVERSE_ESCAPES':
-        raise AnalysisError('encoder first test is ' + t1)
-    body_src = ' '.join(ast.unparse(s) for s in iff.body)
-    uses_table = '_STRING_REVERSE_ESCAPES[c]' in body_src and "b'\\\\'" in \
-        body_src
-    pad = 'rjust(3' in body_src and 'isdigit()' in body_src and \
-        '[i + 1:i + 2]' in body_src
-    other = [s for s in iff.body if not (
-        isinstance(s, (ast.Assign, ast.If, ast.Expr)))]
-    if not uses_table or other:
-        raise AnalysisError('encoder table branch outside the model')
-    ifs = [x for x in iff.body if isinstance(x, ast.If)]
-    if (ifs and not pad) or len(ifs) > 1:
-        raise AnalysisError('encoder table branch outside the model')
-    apps = [x for x in iff.body if isinstance(x, ast.Expr)]
-    asgs = [x for x in iff.body if isinstance(x, ast.Assign)]
-    if len(apps) != 1 or len(asgs) > 1 or (asgs and ast.unparse(
-            asgs[0].value) != '_STRING_REVERSE_ESCAPES[c]'):
-        raise AnalysisError('encoder table branch outside the model')
-    quote_escape = False
-    passthrough = False
-    if len(iff.orelse) == 1 and isinstance(iff.orelse[0], ast.If):
-        e2 = iff.orelse[0]
-        if ast.unparse(e2.test).replace(' ', '') == 'c==self._quote' and \
-                "append(b'\\\\' + c)" in ast.unparse(e2.body[0]):
-            quote_escape = True
-        if len(e2.orelse) == 1 and ast.unparse(e2.orelse[0]).endswith(
-                'append(c)'):
-            passthrough = True
-    elif len(iff.orelse) == 1 and ast.unparse(iff.orelse[0]).endswith(
-            'append(c)'):
-        passthrough = True
-    # c = bytes([c]) conversion present; result wrapped in the quote
-    wrap = any(ast.unparse(r.value).replace(' ', '').startswith('self._quote+')
-               and ast.unparse(r.value).replace(' ', '').endswith(
-                   '+self._quote')
-               for r in walk_own(f.node) if isinstance(r, ast.Return))
-    if not wrap:
-        raise AnalysisError('encoder does not wrap the text in its quote')
-    return f, EncoderSpec(rev, pad, quote_escape, passthrough)
+def extract_encoder(ctx, quote):
+    f = ctx.model.func(LX + ':TokString.code')
+    return f, strenc.extract(ctx, f, quote)
 
 
 class DecoderSpec:
@@ -466,42 +390,66 @@ def extract_decoder(ctx, src):
 
 def rule_escapes(ctx, res, src):
     try:
-        f_enc, enc = extract_encoder(ctx)
+        encs = {}
+        for q in (b'"', b"'"):
+            f_enc, encs[q] = extract_encoder(ctx, q)
         dec, esc_if = extract_decoder(ctx, src)
     except AnalysisError as e:
         res.undecided('R-C06-escapes', LX + ':TokString.code', 'extraction',
                       str(e))
         return
     where = LX + ':TokString.code'
-    res.tables['_STRING_REVERSE_ESCAPES'] = len(enc.rev)
+    rev = ctx.consts.module_const(LX, '_STRING_REVERSE_ESCAPES')
+    res.tables['_STRING_REVERSE_ESCAPES'] = len(rev) if isinstance(
+        rev, dict) else None
     res.tables['decoder_handlers'] = [h[0] for h in dec.handlers] + ['table']
+    res.tables['encoder_context_conditions'] = sorted(
+        {cd.text for e in encs.values() for cd in e.conds})
+    for q, enc in sorted(encs.items()):
+        res.check(enc.prefix == q and enc.suffix == q, 'R-C06-escapes', where,
+                  'text wrapped in its own quote ({})'.format(q.decode()),
+                  'quote + pieces + quote',
+                  'the literal is written as {!r} + text + {!r} instead of '
+                  'being wrapped in its quote character'.format(
+                      enc.prefix, enc.suffix), f_enc.loc)
     n = 0
     bad = {}
-    for q in (b'"', b"'"):
+    for q, enc in sorted(encs.items()):
+        ctxdep = [c for c in range(256) if enc.context_dependent(c)]
+        reps = sorted({b for b in b'0123456789az \n\\\x00\xff' + q} |
+                      set(ctxdep))
+        res.stats['context_dependent_bytes'] = len(ctxdep)
         for c in range(256):
-            for nxt in [None] + list(range(256)):
+            rests = [b''] + [bytes([x]) for x in range(256)]
+            if c in ctxdep:
+                # the condition may look further than one byte: two-byte
+                # remainders (every next byte x representative third byte) and
+                # three-byte remainders over the representatives
+                rests += [bytes([x, y]) for x in range(256) for y in reps]
+                rests += [bytes([x, y, z]) for x in reps for y in reps
+                          for z in reps]
+            for rest in rests:
                 n += 1
-                text = enc.encode(c, nxt, q)
-                want = bytes([c])
-                if nxt is not None:
-                    text += enc.encode(nxt, None, q)
-                    want += bytes([nxt])
-                text += q
+                want = bytes([c]) + rest
+                text = enc.encode(want) + q
                 try:
                     got, end = dec.decode(text, q)
                 except ValueError:
                     got, end = None, None
                 if got != want or end != len(text):
+                    nxt = rest[0] if rest else None
                     key = (c, 'digit' if (nxt is not None and
                                           bytes([nxt]).isdigit()) else
                            ('quote' if nxt == q[0] else 'other'))
-                    bad.setdefault(key, (q, c, nxt, text, got, want))
+                    old = bad.get(key)
+                    if old is None or len(old[3]) > len(want):
+                        bad[key] = (q, c, nxt, want, text, got)
     res.stats['escape_roundtrip_cases'] = n
     by_byte = {}
     for (c, ctxk), v in bad.items():
         by_byte.setdefault(c, []).append((ctxk, v))
     for c, lst in sorted(by_byte.items()):
-        (ctxk, (q, cc, nxt, text, got, want)) = lst[0]
+        (ctxk, (q, cc, nxt, want, text, got)) = lst[0]
         res.violation(
             'R-C06-escapes', where,
             'byte 0x{:02x} round-trips ({})'.format(
@@ -512,8 +460,10 @@ def rule_escapes(ctx, res, src):
     if not bad:
         res.holds('R-C06-escapes', where,
                   'decode(encode(b)) == b in every right context',
-                  '{} (byte, next byte, quote) cases, exhaustive'.format(n),
-                  f_enc.loc)
+                  '{} (byte, remainder, quote) cases: every byte x every '
+                  'next byte, and for context-dependent bytes every '
+                  'two-byte and representative three-byte remainder'.format(
+                      n), f_enc.loc)
     # reference forms
     miss = []
     for (text, want) in ref.ESCAPE_FORMS:
